@@ -17,3 +17,4 @@ def run(ctx):
     atomics.N2(ctx)
     atomics.N3(ctx)
     atomics.N4(ctx)
+    atomics.O2(ctx)
